@@ -412,6 +412,9 @@ class SymSeq(list):
         # membership of a concrete string in a sequence of opaque names: decided by the generic element
         if isinstance(self.elem, Name) and isinstance(x, str) and not isinstance(x, Name):
             return self.elem == x
+        if isinstance(self.elem, Name) and isinstance(x, Name):
+            # some element equals x?  symbolic fact, the same one a search loop over the sequence decides
+            return ctx().branch(z3.Bool(f"eq!{self.elem.ident}!{x.ident}"))
         raise Unsupported("membership test on a symbolic sequence")
 
     append = extend = insert = pop = index = count = sort = reverse = _unsup
@@ -474,3 +477,21 @@ class StarOperand(Name):
         if x == "*":
             return True
         raise Unsupported("StarOperand.__contains__ form")
+
+
+class SymName(Name):
+    """generic element of a symbolic sequence of names: equality with another name is a symbolic fact"""
+
+    def __eq__(self, o):
+        if isinstance(o, Name) and not isinstance(o, SymName):
+            import z3 as _z3
+            return SymBool(_z3.Bool(f"eq!{self.ident}!{o.ident}"))
+        if isinstance(o, SymName):
+            return o.ident == self.ident
+        return Name.__eq__(self, o)
+
+    def __ne__(self, o):
+        r = self.__eq__(o)
+        return SymBool(__import__("z3").Not(r.t)) if isinstance(r, SymBool) else (not r)
+
+    __hash__ = Name.__hash__
